@@ -18,6 +18,7 @@ import (
 	gm "verif/harness/gomap"
 	"verif/harness/iox"
 	"verif/harness/pbt"
+	"verif/harness/ref/leb"
 	rn "verif/harness/ref/nbt"
 	"verif/harness/ref/wire"
 )
@@ -1031,3 +1032,102 @@ func singleKey(t *rn.Tag) {
 		singleKey(e)
 	}
 }
+
+// ---- padded (non-minimal) VarInt / VarLong encodings on the read side ----------------------------------------
+//
+// A peer may pad a VarInt with zero groups (`80 00` for 0). Whether the library accepts such an encoding is not
+// asserted (C05); but if it does, the value is the number spelled and the reported count is what was taken from the
+// stream - the next field starts where this one ended.
+
+type C06Padded struct {
+	Long  bool  `json:"long"`
+	V     int64 `json:"v"`
+	Pad   int   `json:"pad"`   // zero groups appended (clipped so that the encoding stays within 5 / 10 bytes)
+	Plain bool  `json:"plain"` // reader without ReadByte
+	Tuple bool  `json:"tuple"` // the padded number is the first member of a Tuple{number, UnsignedByte}
+}
+
+func c06CheckPadded(c C06Padded) *pbt.Violation {
+	bits, max := 32, 5
+	v := uint64(uint32(int32(c.V)))
+	if c.Long {
+		bits, max, v = 64, 10, uint64(c.V)
+	}
+	enc := leb.Encode(v, bits)
+	pad := c.Pad
+	if len(enc)+pad > max {
+		pad = max - len(enc)
+	}
+	if pad > 0 {
+		enc[len(enc)-1] |= 0x80
+		for i := 0; i < pad; i++ {
+			enc = append(enc, 0x80)
+		}
+		enc[len(enc)-1] = 0x00
+	}
+	stream := append(append([]byte{}, enc...), 0x5a, 0xa5)
+	src := iox.NewSrc(stream)
+	var r io.Reader = iox.ByteSrc{Src: src}
+	if c.Plain {
+		r = iox.Plain{R: src}
+	}
+	var got uint64
+	var n int64
+	var err error
+	var second pk.UnsignedByte
+	pv, stack := pbt.Try(func() {
+		var f pk.Field
+		var vi pk.VarInt
+		var vl pk.VarLong
+		if c.Long {
+			f = &vl
+		} else {
+			f = &vi
+		}
+		if c.Tuple {
+			n, err = pk.Tuple{f, &second}.ReadFrom(r)
+		} else {
+			n, err = f.ReadFrom(r)
+		}
+		got = uint64(vl)
+		if !c.Long {
+			got = uint64(uint32(vi))
+		}
+	})
+	if pv != nil {
+		return pbt.V(pbt.PanicKey("c06.padded", stack), "no panic", "ReadFrom(% x) panicked: %v\n%s", enc, pv, stack)
+	}
+	if err != nil {
+		return nil // refusing padded encodings is allowed
+	}
+	want := int64(len(enc))
+	if c.Tuple {
+		want++
+		if second != 0x5a {
+			return pbt.V("c06.padded.next", "byte counts equal the bytes consumed (the next field starts where this one ended)", "Tuple{number, UnsignedByte} on % x|5a: second member %#x", enc, byte(second))
+		}
+	}
+	if got != v || n != want || int64(src.Pos) != want {
+		return pbt.V("c06.padded.count", "the byte count returned by ReadFrom equals the bytes actually consumed; the value is the number spelled",
+			"ReadFrom(% x) (long=%v tuple=%v plain=%v): value %d (want %d), reported n=%d, taken from the stream %d, encoding is %d bytes", enc, c.Long, c.Tuple, c.Plain, got, v, n, src.Pos, len(enc))
+	}
+	return nil
+}
+
+var c06Padded = pbt.Register(pbt.Prop[C06Padded]{
+	Name: "C06Padded",
+	Gen: func(t *rapid.T) C06Padded {
+		c := C06Padded{Long: rapid.Bool().Draw(t, "long"), Pad: rapid.IntRange(0, 9).Draw(t, "pad"), Plain: rapid.Bool().Draw(t, "plain"), Tuple: rapid.Bool().Draw(t, "tuple")}
+		k := rapid.IntRange(0, 63).Draw(t, "k")
+		c.V = int64(uint64(1)<<uint(k)) + rapid.Int64Range(-2, 2).Draw(t, "d")
+		if rapid.IntRange(0, 3).Draw(t, "small") == 0 {
+			c.V = rapid.Int64Range(0, 300).Draw(t, "v")
+		}
+		return c
+	},
+	Check:    c06CheckPadded,
+	Classify: func(c C06Padded) (bool, []string, []byte) { return c.Pad > 0, nil, nil },
+	Quick:    64000, Thorough: 1000000,
+})
+
+func TestC06Padded(t *testing.T) { pbt.Run(t, c06Padded) }
